@@ -222,6 +222,16 @@ def guarded(ctx: "Ctx", fn: Callable, case):
     except Exception as ex:  # noqa: BLE001
         from .errors import crash_owner  # noqa: PLC0415
         owner, site = crash_owner(ex)
+        if owner == "harness" and isinstance(ex, ValueError) and "integer string conversion" in str(ex) \
+                and sys.get_int_max_str_digits() != 0:
+            # the harness itself tried to render an int above the int-to-str digit limit (a generated default / datum) while
+            # wording a verdict: evaluate the case once more with the limit lifted for the rendering
+            old = sys.get_int_max_str_digits()
+            sys.set_int_max_str_digits(0)
+            try:
+                return fn(case)
+            finally:
+                sys.set_int_max_str_digits(old)
         if owner != "adaptix":
             raise
         tail = "".join(traceback.format_exception(type(ex), ex, ex.__traceback__)[-3:])
